@@ -74,6 +74,19 @@ def run(res, tier, seed, shard, nshards):
             _check_one(res, raw, lst, x, "random")
             if lst:
                 res.seen((tuple(lst), x))
+        # probes of another numeric type than the elements: ints on float lists, floats / Fractions on int lists
+        x = rng.randrange(-6, 7)
+        _check_one(res, raw, lst, x, "random-int-probe")
+        if i % 3 == 0:
+            from fractions import Fraction
+
+            ilst = sorted(rng.randrange(-4, 5) for _ in range(n))
+            for x in (rng.choice([-0.5, 0.5, 1.0, 2.0, -3.0, 3.5]), Fraction(rng.randrange(-9, 10), 2), True):
+                _check_one(res, raw, ilst, x, "random-int-list")
+            half = sorted(rng.randrange(-8, 9) / 2 for _ in range(n))
+            for x in (rng.randrange(-4, 5), rng.randrange(-4, 5)):
+                _check_one(res, raw, half, x, "random-halves-int-probe")
+                res.seen((tuple(half), x, "int"))
     res.counters["random_lists"] = n_rand
     # long lists (beyond any small-size fast path), long runs of duplicates, ints beyond 2**53 next to floats
     n_long = 40 if tier == "quick" else 600
